@@ -73,17 +73,17 @@ def conformance(pid, tier, seed):
             cfgs = SERPENT_CFGS
         # per-family effort (TLC cost per key schedule differs by orders of magnitude)
         if fam == "Blowfish":
-            kw = dict(keys=80 if thorough else 2, blocks=5 if thorough else 2, lens="all")
+            kw = dict(keys=40 if thorough else 2, blocks=5 if thorough else 2, lens="all")
         elif fam in ("Serpent", "Kuznyechik", "Threefish", "Gift"):
-            kw = dict(keys=240 if thorough else 4, blocks=10 if thorough else 3, lens="all")
+            kw = dict(keys=80 if thorough else 4, blocks=10 if thorough else 3, lens="all")
         elif fam == "RC2":
-            kw = dict(keys=48 if thorough else 2, blocks=5 if thorough else 2, lens="all")
+            kw = dict(keys=16 if thorough else 2, blocks=5 if thorough else 2, lens="all")
         elif fam == "RC5":
-            kw = dict(keys=240 if thorough else 10, blocks=10 if thorough else 4, lens="all")
+            kw = dict(keys=120 if thorough else 10, blocks=10 if thorough else 4, lens="all")
         elif fam == "AES":
-            kw = dict(keys=800 if thorough else 6, blocks=12 if thorough else 3, lens="all")
+            kw = dict(keys=200 if thorough else 6, blocks=12 if thorough else 3, lens="all")
         else:
-            kw = dict(keys=1600 if thorough else 10, blocks=12 if thorough else 4, lens="all")
+            kw = dict(keys=400 if thorough else 10, blocks=12 if thorough else 4, lens="all")
         if fam == "Idea":
             # the inverse mod 2^16 + 1 behind the decryption subkeys: a seeded slice of its domain per run, all of it when thorough
             kw["sweep16"] = 65536 if thorough else 4096
